@@ -412,6 +412,11 @@ pub fn replay_sem(prop: &str, case: &Value) -> Found {
         .as_array()
         .map(|a| a.iter().map(|x| x.as_str().unwrap_or("").to_string()).collect())
         .unwrap_or_else(|| crate::fam::names(tts.len()));
+    if let Some(i) = case.get("sparse").and_then(|x| x.as_u64()) {
+        let l = crate::mid::sparse(i);
+        sem_case_o(prop, &text, &Oracle::from_formulas(&l), case["sorting"].as_u64().unwrap_or(0) as usize, &l.labels, &mut out, &mut st);
+        return out;
+    }
     if let Some(r) = case.get("ring") {
         let l = crate::mid::ring(r["n"].as_u64().unwrap_or(6) as usize, r["index"].as_u64().unwrap_or(0));
         sem_case_o(prop, &text, &Oracle::from_formulas(&l), case["sorting"].as_u64().unwrap_or(0) as usize, &l.labels, &mut out, &mut st);
